@@ -522,7 +522,7 @@ package server
 //@ requires r != nil && typeIs(r, *wal.forwardReader) && lc.db != nil
 //@ requires as(r, *wal.forwardReader).reader.wal != nil && as(r, *wal.forwardReader).reader.wal.readLatency != nil && as(r, *wal.forwardReader).reader.wal.lastSyncedOffset.v < 4611686018427387904
 //@ assume at call Unmarshal#0: result == nil ==> logEntryValue.GetRequests() != nil && forall i int :: 0 <= i && i < len(logEntryValue.GetRequests().Writes) ==> logEntryValue.GetRequests().Writes[i] != nil because "every entry in the log was produced by leaderController.write, which always stores a Requests value; protobuf decoding never yields nil elements in a repeated message field"
-//@ assert at call ProcessWrite#0: commitOffset == entry.Offset && timestamp == entry.Timestamp && entry.Offset == as(r, *wal.forwardReader).reader.nextOffset - 1
+//@ assert at call ProcessWrite#0: commitOffset == entry.Offset && timestamp == entry.Timestamp && entry.Offset == as(r, *wal.forwardReader).reader.nextOffset - 1 && updateOperationCallback == WrapperUpdateOperationCallback
 //@ loop 0 modifies *
 //@ loop 0 invariant lc.db == old(lc.db) && as(r, *wal.forwardReader).reader.wal == old(as(r, *wal.forwardReader).reader.wal) && as(r, *wal.forwardReader).reader.wal.readLatency != nil && as(r, *wal.forwardReader).reader.wal.lastSyncedOffset.v < 4611686018427387904 && as(r, *wal.forwardReader).reader.nextOffset >= old(as(r, *wal.forwardReader).reader.nextOffset)
 //@ loop 1 modifies *
@@ -599,7 +599,7 @@ package server
 //@ property C07
 //@ requires entry != nil && logEntryValue != nil && fc.db != nil && fc.log != nil && logEntryValue.GetRequests() != nil
 //@ requires forall i int :: 0 <= i && i < len(logEntryValue.GetRequests().Writes) ==> logEntryValue.GetRequests().Writes[i] != nil
-//@ assert at call ProcessWrite#0: commitOffset == entry.Offset && timestamp == entry.Timestamp
+//@ assert at call ProcessWrite#0: commitOffset == entry.Offset && timestamp == entry.Timestamp && updateOperationCallback == WrapperUpdateOperationCallback
 //@ loop 0 modifies *
 //@ loop 0 invariant fc.db == old(fc.db) && fc.log == old(fc.log) && entry.Offset == old(entry.Offset) && entry.Timestamp == old(entry.Timestamp)
 //@ modifies *
@@ -678,7 +678,7 @@ package server
 //@ property C07
 //@ sequential
 //@ requires lc != nil && lc.db != nil && cb != nil
-//@ assert at call ProcessWrite#0: b == request && commitOffset == newOffset
+//@ assert at call ProcessWrite#0: b == request && commitOffset == newOffset && updateOperationCallback == WrapperUpdateOperationCallback
 //@ assert at call OnComplete#0: t == wr
 //@ modifies *
 
